@@ -1,12 +1,20 @@
+(* Data types shared by the translated facts of textx/export.py (Gen/SrcExport.v) and the export model. *)
 From TxV Require Import Core.Base.
-(* what fills a hole of an output template *)
+
+(* what fills a hole of an output template; the meaning of each kind is `fills` in Model/Export.v *)
 Inductive hkind :=
-| HDigits      (* id(...) / an index: decimal digits *)
-| HIdent       (* a grammar identifier: rule, class or attribute name *)
-| HConst       (* one of finitely many literal strings without a double quote *)
+| HDigits      (* id(...) / an enumerate index: decimal digits *)
+| HIdent       (* a grammar identifier: rule, class or attribute name, fqn, type(...).__name__ *)
+| HPlain       (* str() of an int/float/bool, a multiplicity constant: letters, digits and . + - * _ *)
 | HEscaped     (* dot_escape(...) *)
-| HRepr        (* dot_repr(...) *)
-| HPrim        (* str() of an int/float/bool, or a string already passed through dot_repr *)
-| HSafeText    (* text assembled only from quote-free literals and the kinds above *)
+| HPrim        (* dot_repr(x) for a primitive x: the quoted, escaped, truncated text of a string, or HPlain text *)
+| HHtml        (* html.escape(...): no angle brackets *)
 | HRaw.        (* anything else: unescaped user text *)
-Inductive tpart := Lit (s : list N) | Hole (k : hkind).
+
+(* a regular over-approximation of the texts one output statement can write *)
+Inductive tx :=
+| TLit (s : list N)
+| THole (k : hkind)
+| TCat (l : list tx)
+| TAlt (l : list tx)        (* one of *)
+| TStar (t : tx).           (* zero or more repetitions: accumulation in a loop, str.join *)
